@@ -911,6 +911,63 @@ fn two_pow_63_contexts(cx: &mut Cx, rng: &mut Rng)
 	for ((t, b), r) in cases.iter().zip(replies.iter()) {ctx_check(cx, t, *b, r);}
 }
 
+/// an integer literal directly followed (no blank) by punctuation (`fol <hex> <value>`): the first token is the number with exactly
+/// that value, whatever stands behind it
+fn follow_check(cx: &mut Cx, bytes: &[u8], value: u64, reply: &str)
+{
+	let input = format!("fol {} {value}", hex(bytes));
+	let lx = real_lex(bytes);
+	cx.report.case(Some(&lx.canon));
+	cx.report.hit("literal directly followed by punctuation");
+	cx.report.compare("model.lex.tokens", &input, reply, &lx.canon);
+	if let Some(m) = &lx.panic {cx.report.oracle_fail(input, format!("tokenizer panics: {m}")); return;}
+	match lx.toks.first()
+	{
+		Some(t) if t.kind == "num" && t.payload == value.to_string() && (t.line, t.col) == (1, 1) => (),
+		other => cx.report.oracle_fail(input, format!("the text starts with the literal {value}; the first token is {:?} (error: {:?})", other.map(|t| format!("{} {}", t.kind, t.payload)), lx.err)),
+	}
+}
+
+fn literal_followers(cx: &mut Cx, rng: &mut Rng)
+{
+	let mut cases: Vec<(Vec<u8>, u64)> = Vec::new();
+	let followers: [&[u8]; 14] = [b":", b";", b"<<1", b"=", b">>1", b"?", b"<", b">", b";;;;;;;;", b":x", b"<<", b">>", b"; // c", b";\n"];
+	for radix in [10u32, 16, 2, 8]
+	{
+		for len in 1..=20usize
+		{
+			for _ in 0..3
+			{
+				// `len` digits (leading zeros allowed beyond the first), value within i64
+				let maxdigits = match radix {10 => 18, 16 => 15, 8 => 20, _ => 62};
+				let sig = len.min(maxdigits);
+				let mut v: u64 = 0;
+				let mut digits = String::new();
+				for k in 0..len
+				{
+					let d = if k < len - sig {0} else {rng.below(radix as u64)};
+					v = v.wrapping_mul(radix as u64).wrapping_add(d);
+					digits.push(char::from_digit(d as u32, radix).unwrap());
+				}
+				if radix == 16 && rng.chance(1, 2) {digits = digits.to_uppercase();}
+				let prefix = match radix {10 => "", 16 => "0x", 2 => "0b", _ => "0o"};
+				for f in followers
+				{
+					let mut t = format!("{prefix}{digits}").into_bytes();
+					t.extend_from_slice(f);
+					cases.push((t, v));
+				}
+			}
+		}
+	}
+	for chunk in cases.chunks(8192)
+	{
+		let lines: Vec<String> = chunk.iter().map(|(t, _)| format!("lex tok {}", hex(t))).collect();
+		let replies = cx.model.ask_many(&lines);
+		for ((t, v), r) in chunk.iter().zip(replies.iter()) {follow_check(cx, t, *v, r);}
+	}
+}
+
 fn run_c11(cx: &mut Cx)
 {
 	cx.report.rule = "integers: every n within 2^12 of 0, 2^31, 2^32, 2^63 (below and above) in radix 2, 8, 10, 16, lower / upper / mixed digit case, \
@@ -933,6 +990,12 @@ non-trivial = accepted literal; distinct = distinct canonical token streams".to_
 				let reply = cx.model.ask(&format!("lex tok {}", hex(&bytes)));
 				seq_check(cx, &bytes, &w.split(',').map(str::to_owned).collect::<Vec<_>>(), &reply);
 			},
+			["fol", h, v] if unhex(h).is_some() && v.parse::<u64>().is_ok() =>
+			{
+				let bytes = unhex(h).unwrap();
+				let reply = cx.model.ask(&format!("lex tok {}", hex(&bytes)));
+				follow_check(cx, &bytes, v.parse().unwrap(), &reply);
+			},
 			["ctx", h, n] if unhex(h).is_some() && n.parse::<usize>().is_ok() =>
 			{
 				let bytes = unhex(h).unwrap();
@@ -946,6 +1009,7 @@ non-trivial = accepted literal; distinct = distinct canonical token streams".to_
 	let mut rng = cx.rng.fork();
 	literal_sequences(cx, &mut rng);
 	two_pow_63_contexts(cx, &mut rng);
+	literal_followers(cx, &mut rng);
 
 	// integers around the boundaries
 	let mut b = Batch{class: "integer literal", cases: Vec::new()};
